@@ -37,6 +37,21 @@ HOLDER OR OTHER PARTY HAS BEEN ADVISED OF THE POSSIBILITY OF SUCH DAMAGES.
 #define FIX8_FF_WRAPPER_HPP_
 
 //-------------------------------------------------------------------------------------------------
+#if defined FIX8_VERIF && defined __has_feature
+# if __has_feature(thread_sanitizer)
+// verification hook: tell ThreadSanitizer that an element popped from the queue happens-after its push (the queue itself
+// synchronises with volatile reads and CAS that the tool does not model); inert in every other build
+extern "C" void __tsan_acquire(void *addr);
+extern "C" void __tsan_release(void *addr);
+#  define FIX8_VERIF_TSAN_RELEASE(p) __tsan_release(static_cast<void *>(p))
+#  define FIX8_VERIF_TSAN_ACQUIRE(p) __tsan_acquire(static_cast<void *>(p))
+# endif
+#endif
+#ifndef FIX8_VERIF_TSAN_RELEASE
+# define FIX8_VERIF_TSAN_RELEASE(p)
+# define FIX8_VERIF_TSAN_ACQUIRE(p)
+#endif
+
 namespace FIX8 {
 
 //----------------------------------------------------------------------------------------
@@ -59,9 +74,19 @@ public:
 	~ff_unbounded_queue() {}
 
 	bool try_push(const T& source)
-		{ return _queue.push(new (::ff::ff_malloc(sizeof(T))) T(source)); }
+	{
+		T *elem(new (::ff::ff_malloc(sizeof(T))) T(source));
+		FIX8_VERIF_TSAN_RELEASE(elem);
+		return _queue.push(elem);
+	}
 	void push(const T& source) { try_push(source); }
-	bool try_pop(T* &target) { return _queue.pop(reinterpret_cast<void**>(&target)); }
+	bool try_pop(T* &target)
+	{
+		if (!_queue.pop(reinterpret_cast<void**>(&target)))
+			return false;
+		FIX8_VERIF_TSAN_ACQUIRE(target);
+		return true;
+	}
 	bool pop(T* &target)
 	{
 #if defined FIX8_SLEEP_NO_YIELD
@@ -107,12 +132,17 @@ public:
 	// sentinel (FIXWriter::stop): it travels as the address of a static object
 	static T *null_token() { static char token; return reinterpret_cast<T *>(&token); }
 
-	bool try_push(T *source) { return _queue.push(source ? source : null_token()); }
+	bool try_push(T *source)
+	{
+		FIX8_VERIF_TSAN_RELEASE(source ? source : null_token());
+		return _queue.push(source ? source : null_token());
+	}
 	void push(T *source) { try_push(source); }
 	bool try_pop(T* &target)
 	{
 		if (!_queue.pop(reinterpret_cast<void**>(&target)))
 			return false;
+		FIX8_VERIF_TSAN_ACQUIRE(target);
 		if (target == null_token())
 			target = nullptr;
 		return true;
